@@ -3,6 +3,9 @@ import Gaftools.Model.Realign
 # Lemmas for C11 / C13 (collector protocol of `realign`)
 
 * sorting (`sortNat`) and batching (`chunks`, `groups`);
+* the handler as a function on the program counter (`checkPC`, one poll) and the invariant `HInv` of the program counter
+  (the handler is not atomic: the parent is at one of the three polls of `refHandler`; at the third only if the second
+  found no worker running);
 * the global invariant `Inv batches s` of the transition system `Realign.step`: worker count, conservation of messages
   (received ++ pipe ++ buffered ++ still to put is a permutation of everything the workers were given), per-worker FIFO
   order (ghost: every message in the pipe is tagged with the worker that wrote it; what remains of a worker's sequence is
@@ -301,28 +304,83 @@ theorem inv_receive {batches : List (List Nat)} {s : St} (h : Inv batches s) {m 
     · rename_i heq
       exact ⟨hl, hperm, hfifo, by simpa using heq, hzero⟩
 
+/-! ## the handler as a function on the program counter -/
+/-- the rest of `refHandler` after `one_failed` said no -/
+def h2 : Prog := .test .alive (.leaf .cont) (.test .exited (.leaf .cont) (.leaf .exit1))
+/-- the rest of `refHandler` after `one_is_alive` said no -/
+def h3 : Prog := .test .exited (.leaf .cont) (.leaf .exit1)
+
+def enterPC : Prog → PC
+  | .leaf .exit1 => .failed
+  | .leaf .cont => .atGet
+  | .leaf _ => .stuck
+  | .test p y n => .eval (.test p y n)
+
+theorem enter_eq (s : St) (p : Prog) : enter s p = { s with pc := enterPC p } := by
+  cases p with
+  | leaf a => cases a <;> rfl
+  | test p y n => rfl
+
+theorem enterPC_ne_done (p : Prog) : enterPC p ≠ .done := by
+  cases p with
+  | leaf a => cases a <;> simp [enterPC]
+  | test p y n => simp [enterPC]
+
+/-- one poll, as a function on the program counter -/
+def checkPC (s : St) : PC → PC
+  | .eval (.test p y n) => enterPC (if evalPred s p then y else n)
+  | pc => pc
+
+theorem checkPC_ne_done (s : St) {pc : PC} (h : pc ≠ .done) : checkPC s pc ≠ .done := by
+  unfold checkPC
+  split
+  · exact enterPC_ne_done _
+  · exact h
+
+theorem step_pCheck (s : St) : step s .pCheck = { s with pc := checkPC s s.pc } := by
+  simp only [step, stepH]
+  split
+  · rename_i hpc
+    rw [enter_eq, hpc]
+    rfl
+  · rename_i hne
+    have : checkPC s s.pc = s.pc := by
+      unfold checkPC
+      split
+      · rename_i hpc; exact absurd hpc (hne _ _ _)
+      · rfl
+    rw [this]
+
+theorem step_pTimeout (s : St) :
+    step s .pTimeout = s ∨ (s.pc = .atGet ∧ s.chan = [] ∧ step s .pTimeout = { s with pc := .eval refHandler }) := by
+  simp only [step, stepH]
+  split
+  · rename_i hpc hc
+    exact Or.inr ⟨hpc, hc, rfl⟩
+  · exact Or.inl rfl
+
 theorem inv_step {batches : List (List Nat)} {s : St} (h : Inv batches s) (e : Ev) : Inv batches (step s e) := by
   cases e with
   | wPut i =>
-    simp only [step]
+    simp only [step, stepH]
     split
     · rename_i m t b hw
       exact inv_updSame h _ hw (by simp) (by simp)
     · exact h
   | wFlush i =>
-    simp only [step]
+    simp only [step, stepH]
     split
     · rename_i t m b hw
       exact inv_flush h hw
     · exact h
   | wExit i =>
-    simp only [step]
+    simp only [step, stepH]
     split
     · rename_i hw
       exact inv_updSame h _ hw (by simp) (by simp)
     · exact h
   | wDie i code =>
-    simp only [step]
+    simp only [step, stepH]
     split
     · rename_i t b hw
       split
@@ -331,29 +389,21 @@ theorem inv_step {batches : List (List Nat)} {s : St} (h : Inv batches s) (e : E
         exact inv_updSame h _ hw (by simp) (by simp [hc])
     · exact h
   | pGet =>
-    simp only [step]
+    simp only [step, stepH]
     split
     · rename_i m c hpc hc
       exact inv_receive h hc
     · exact h
   | pTimeout =>
-    simp only [step]
-    split
-    · rename_i hpc hc
-      exact inv_setpc h _ (by simp [hpc]) (by simp)
+    rcases step_pTimeout s with h' | ⟨hpc, _, h'⟩ <;> rw [h']
     · exact h
+    · exact inv_setpc h _ (by simp [hpc]) (by simp)
   | pCheck =>
-    simp only [step]
-    split
-    · rename_i hpc
-      split
-      · exact inv_setpc h _ (by simp [hpc]) (by simp)
-      · split
-        · exact inv_setpc h _ (by simp [hpc]) (by simp)
-        · split
-          · exact inv_setpc h _ (by simp [hpc]) (by simp)
-          · exact inv_setpc h _ (by simp [hpc]) (by simp)
-    · exact h
+    rw [step_pCheck]
+    by_cases hd : s.pc = .done
+    · have : checkPC s s.pc = s.pc := by rw [hd]; rfl
+      rw [this]; exact h
+    · exact inv_setpc h _ hd (checkPC_ne_done s hd)
 
 theorem run_cons (s : St) (e : Ev) (es : List Ev) : run s (e :: es) = run (step s e) es := rfl
 theorem run_nil (s : St) : run s [] = s := rfl
@@ -448,80 +498,104 @@ theorem done_undelivered (batches : List (List Nat)) (es : List Ev) (h : (run (i
   simpa [W, List.flatMap_eq_nil_iff] using hW
 
 /-! ## deaths and failure -/
-/-- the liveness check changes at most the parent's program counter -/
-theorem pCheck_cases (s : St) :
-    step s .pCheck = s ∨ step s .pCheck = { s with pc := .atGet } ∨ step s .pCheck = { s with pc := .failed } := by
-  simp only [step]
-  split
-  · split
-    · exact Or.inr (Or.inr rfl)
-    · split
-      · exact Or.inr (Or.inl rfl)
-      · split
-        · exact Or.inr (Or.inr rfl)
-        · exact Or.inr (Or.inl rfl)
-  · exact Or.inl rfl
+theorem receive_ws (s : St) (m : Msg) : (receive s m).ws = s.ws := by
+  simp only [receive]; split <;> split <;> rfl
+theorem receive_chan (s : St) (m : Msg) : (receive s m).chan = s.chan := by
+  simp only [receive]; split <;> split <;> rfl
+theorem receive_pc (s : St) (m : Msg) : (receive s m).pc = .done ∨ (receive s m).pc = .atGet := by
+  simp only [receive]; split <;> split <;> simp
 
-theorem death_persistent (s : St) (i : Nat) (w : Worker) (hi : s.ws[i]? = some w) (c : Int) (hc : w.st = .exited c) (e : Ev) :
-    (step s e).ws[i]? = some w := by
-  have key : ∀ (j : Nat) (w₀ w' : Worker), s.ws[j]? = some w₀ → w₀.st = .running → (updW s.ws j w')[i]? = some w := by
-    intro j w₀ w' hj hr
-    by_cases hji : j = i
-    · subst hji
-      rw [hi] at hj
-      cases hj
-      rw [hc] at hr
-      cases hr
-    · simp [updW, hji, hi]
+def isWorkerEv : Ev → Bool
+  | .pGet | .pTimeout | .pCheck => false
+  | _ => true
+
+theorem ev_cases (e : Ev) : isWorkerEv e = true ∨ e = .pGet ∨ e = .pTimeout ∨ e = .pCheck := by
+  cases e <;> simp [isWorkerEv]
+
+/-- the parent's events do not touch the workers -/
+theorem step_ws_parent (s : St) (e : Ev) (he : e = .pGet ∨ e = .pTimeout ∨ e = .pCheck) : (step s e).ws = s.ws := by
+  rcases he with rfl | rfl | rfl
+  · simp only [step, stepH]
+    split
+    · exact receive_ws _ _
+    · rfl
+  · rcases step_pTimeout s with h | ⟨_, _, h⟩ <;> rw [h]
+  · rw [step_pCheck]
+
+/-- a worker event is a stutter or rewrites one running worker; the parent's program counter is untouched -/
+theorem worker_cases (s : St) (e : Ev) (he : isWorkerEv e = true) :
+    step s e = s ∨
+      ∃ i w w', s.ws[i]? = some w ∧ w.st = .running ∧ (step s e).ws = updW s.ws i w' ∧ (step s e).pc = s.pc := by
   cases e with
   | wPut j =>
-    simp only [step]
+    simp only [step, stepH]
     split
     · rename_i hw
-      exact key j _ _ hw rfl
-    · exact hi
+      exact Or.inr ⟨j, _, _, hw, rfl, rfl, rfl⟩
+    · exact Or.inl rfl
   | wFlush j =>
-    simp only [step]
+    simp only [step, stepH]
     split
     · rename_i hw
-      exact key j _ _ hw rfl
-    · exact hi
+      exact Or.inr ⟨j, _, _, hw, rfl, rfl, rfl⟩
+    · exact Or.inl rfl
   | wExit j =>
-    simp only [step]
+    simp only [step, stepH]
     split
     · rename_i hw
-      exact key j _ _ hw rfl
-    · exact hi
+      exact Or.inr ⟨j, _, _, hw, rfl, rfl, rfl⟩
+    · exact Or.inl rfl
   | wDie j code =>
-    simp only [step]
+    simp only [step, stepH]
     split
     · rename_i hw
       split
-      · exact hi
-      · exact key j _ _ hw rfl
-    · exact hi
-  | pGet =>
-    simp only [step]
-    split
-    · simp only [receive]
-      split <;> split <;> exact hi
-    · exact hi
-  | pTimeout =>
-    simp only [step]
-    split <;> exact hi
-  | pCheck =>
-    rcases pCheck_cases s with h | h | h <;> rw [h] <;> exact hi
+      · exact Or.inl rfl
+      · exact Or.inr ⟨j, _, _, hw, rfl, rfl, rfl⟩
+    · exact Or.inl rfl
+  | pGet => simp [isWorkerEv] at he
+  | pTimeout => simp [isWorkerEv] at he
+  | pCheck => simp [isWorkerEv] at he
 
-theorem step_ws_parent (s : St) (e : Ev) (he : e = .pGet ∨ e = .pTimeout ∨ e = .pCheck) : (step s e).ws = s.ws := by
-  rcases he with rfl | rfl | rfl
-  · simp only [step]
-    split
-    · simp only [receive]
-      split <;> split <;> rfl
-    · rfl
-  · simp only [step]
-    split <;> rfl
-  · rcases pCheck_cases s with h | h | h <;> rw [h]
+theorem death_persistent (s : St) (i : Nat) (w : Worker) (hi : s.ws[i]? = some w) (c : Int) (hc : w.st = .exited c) (e : Ev) :
+    (step s e).ws[i]? = some w := by
+  rcases ev_cases e with he | he
+  · rcases worker_cases s e he with h | ⟨j, w₀, w', hj, hr, hws, _⟩
+    · rw [h]; exact hi
+    · rw [hws]
+      by_cases hji : j = i
+      · subst hji
+        rw [hi] at hj
+        cases hj
+        rw [hc] at hr
+        cases hr
+      · simp [updW, hji, hi]
+  · rw [step_ws_parent s e he]; exact hi
+
+theorem anyRunning_congr {s s' : St} (h : s'.ws = s.ws) : anyRunning s' = anyRunning s := by
+  simp [anyRunning, h]
+theorem allExitedZero_congr {s s' : St} (h : s'.ws = s.ws) : allExitedZero s' = allExitedZero s := by
+  simp [allExitedZero, h]
+theorem anyFailed_congr {s s' : St} (h : s'.ws = s.ws) : anyFailed s' = anyFailed s := by
+  simp [anyFailed, h]
+theorem evalPred_congr {s s' : St} (h : s'.ws = s.ws) (p : Pred) : evalPred s' p = evalPred s p := by
+  cases p <;> simp [evalPred, anyFailed, anyRunning, allExitedZero, allRunning, h]
+theorem checkPC_congr {s s' : St} (h : s'.ws = s.ws) (pc : PC) : checkPC s' pc = checkPC s pc := by
+  unfold checkPC
+  split
+  · rw [evalPred_congr h]
+  · rfl
+
+theorem checkPC_pc (s : St) (x pc : PC) : checkPC { s with pc := x } pc = checkPC s pc := checkPC_congr rfl pc
+
+/-- once no worker is running, no event changes the workers -/
+theorem quiet_step_ws {s : St} (hq : anyRunning s = false) (e : Ev) : (step s e).ws = s.ws := by
+  rcases ev_cases e with he | he
+  · rcases worker_cases s e he with h | ⟨j, w₀, w', hj, hr, _, _⟩
+    · rw [h]
+    · simp only [anyRunning, List.any_eq_false, beq_iff_eq] at hq
+      exact absurd hr (hq w₀ (List.mem_iff_getElem?.2 ⟨j, hj⟩))
+  · exact step_ws_parent s e he
 
 def wMeasure (w : Worker) : Nat :=
   match w.st with | .running => 2 * w.todo.length + w.buf.length + 1 | .exited _ => 0
@@ -539,28 +613,28 @@ theorem worker_step_decreases (s : St) (e : Ev) (he : match e with | .pGet | .pT
     (hne : step s e ≠ s) : workMeasure (step s e) < workMeasure s := by
   cases e with
   | wPut j =>
-    simp only [step] at hne ⊢
+    simp only [step, stepH] at hne ⊢
     split at hne
     · rename_i m t b hw
       simp only [workMeasure, updW]
       exact measure_set _ hw (by simp [wMeasure]; omega)
     · exact absurd rfl hne
   | wFlush j =>
-    simp only [step] at hne ⊢
+    simp only [step, stepH] at hne ⊢
     split at hne
     · rename_i t m b hw
       simp only [workMeasure, updW]
       exact measure_set _ hw (by simp [wMeasure])
     · exact absurd rfl hne
   | wExit j =>
-    simp only [step] at hne ⊢
+    simp only [step, stepH] at hne ⊢
     split at hne
     · rename_i hw
       simp only [workMeasure, updW]
       exact measure_set _ hw (by simp [wMeasure])
     · exact absurd rfl hne
   | wDie j code =>
-    simp only [step] at hne ⊢
+    simp only [step, stepH] at hne ⊢
     split at hne
     · rename_i t b hw
       split at hne
@@ -573,57 +647,126 @@ theorem worker_step_decreases (s : St) (e : Ev) (he : match e with | .pGet | .pT
   | pTimeout => exact he.elim
   | pCheck => exact he.elim
 
+/-! ## the states inside the handler -/
+@[simp] theorem checkPC_atGet (s : St) : checkPC s .atGet = .atGet := rfl
+@[simp] theorem checkPC_done (s : St) : checkPC s .done = .done := rfl
+@[simp] theorem checkPC_failed (s : St) : checkPC s .failed = .failed := rfl
+@[simp] theorem checkPC_h1 (s : St) : checkPC s (.eval refHandler) = if anyFailed s then .failed else .eval h2 := by
+  show enterPC (if anyFailed s = true then _ else _) = _
+  cases anyFailed s <;> rfl
+@[simp] theorem checkPC_h2 (s : St) : checkPC s (.eval h2) = if anyRunning s then .atGet else .eval h3 := by
+  show enterPC (if anyRunning s = true then _ else _) = _
+  cases anyRunning s <;> rfl
+@[simp] theorem checkPC_h3 (s : St) : checkPC s (.eval h3) = if allExitedZero s then .atGet else .failed := by
+  show enterPC (if allExitedZero s = true then _ else _) = _
+  cases allExitedZero s <;> rfl
+
+theorem h1_ne_h3 : PC.eval refHandler ≠ PC.eval h3 := by simp [refHandler, h3]
+theorem h2_ne_h3 : PC.eval h2 ≠ PC.eval h3 := by simp [h2, h3]
+
+/-- the invariant of the parent's program counter: it is at `get`, has left the loop, or is inside the handler at one of the
+    three polls of `refHandler`; and it is at the third poll (`all_exited`) only if the second (`one_is_alive`) found no
+    worker running — which, workers never coming back to life, still holds -/
+structure HInv (s : St) : Prop where
+  pcs : s.pc = .atGet ∨ s.pc = .done ∨ s.pc = .failed ∨ s.pc = .eval refHandler ∨ s.pc = .eval h2 ∨ s.pc = .eval h3
+  quiet : s.pc = .eval h3 → anyRunning s = false
+
+theorem hinv_init (batches : List (List Nat)) : HInv (init batches) := by
+  refine ⟨?_, ?_⟩
+  · simp only [init]; split <;> simp
+  · simp only [init]; split <;> simp
+
+theorem hinv_step {s : St} (h : HInv s) (e : Ev) : HInv (step s e) := by
+  rcases ev_cases e with he | rfl | rfl | rfl
+  · rcases worker_cases s e he with h' | ⟨j, w₀, w', _, _, _, hpc⟩
+    · rw [h']; exact h
+    · refine ⟨by rw [hpc]; exact h.pcs, fun hp => ?_⟩
+      have hq := h.quiet (by rw [← hpc]; exact hp)
+      exact (anyRunning_congr (quiet_step_ws hq e)).trans hq
+  · simp only [step, stepH]
+    split
+    · rename_i m c _ _
+      have hpc := receive_pc { s with chan := c } m
+      refine ⟨?_, ?_⟩
+      · rcases hpc with h' | h' <;> simp [h']
+      · intro hp
+        rcases hpc with h' | h' <;> rw [h'] at hp <;> cases hp
+    · exact h
+  · rcases step_pTimeout s with h' | ⟨_, _, h'⟩ <;> rw [h']
+    · exact h
+    · exact ⟨by simp, fun hp => absurd hp h1_ne_h3⟩
+  · rw [step_pCheck]
+    rcases h.pcs with hp | hp | hp | hp | hp | hp
+    · have : checkPC s s.pc = s.pc := by rw [hp]; rfl
+      rw [this]; exact h
+    · have : checkPC s s.pc = s.pc := by rw [hp]; rfl
+      rw [this]; exact h
+    · have : checkPC s s.pc = s.pc := by rw [hp]; rfl
+      rw [this]; exact h
+    · rw [hp, checkPC_h1]
+      cases anyFailed s
+      · exact ⟨by simp, fun hp => absurd hp (by simpa using h2_ne_h3)⟩
+      · exact ⟨by simp, fun hp => by simp at hp⟩
+    · rw [hp, checkPC_h2]
+      cases hr : anyRunning s
+      · exact ⟨by simp, fun _ => hr⟩
+      · exact ⟨by simp, fun hp => by simp at hp⟩
+    · rw [hp, checkPC_h3]
+      cases allExitedZero s
+      · exact ⟨by simp, fun hp => by simp at hp⟩
+      · exact ⟨by simp, fun hp => by simp at hp⟩
+
+theorem hinv_run {s : St} (h : HInv s) (es : List Ev) : HInv (run s es) := by
+  induction es generalizing s with
+  | nil => exact h
+  | cons e es ih => exact ih (hinv_step h e)
+
+theorem hinv_reach (batches : List (List Nat)) (es : List Ev) : HInv (run (init batches) es) :=
+  hinv_run (hinv_init batches) es
+
+theorem never_stuck (batches : List (List Nat)) (es : List Ev) : (run (init batches) es).pc ≠ .stuck := by
+  intro hs
+  rcases (hinv_reach batches es).pcs with hp | hp | hp | hp | hp | hp <;> rw [hs] at hp <;> cases hp
+
 /-! ## failure only by death -/
 def isDeath : Ev → Bool
   | .wDie _ c => c != 0
   | _ => false
 
-theorem receive_ws (s : St) (m : Msg) : (receive s m).ws = s.ws := by
-  simp only [receive]; split <;> split <;> rfl
-theorem receive_chan (s : St) (m : Msg) : (receive s m).chan = s.chan := by
-  simp only [receive]; split <;> split <;> rfl
-theorem receive_pc (s : St) (m : Msg) : (receive s m).pc = .done ∨ (receive s m).pc = .atGet := by
-  simp only [receive]; split <;> split <;> simp
-
-/-- `failed` is entered only by the liveness check: with a failed worker, or with nobody running and not all exit codes
-    zero -/
-theorem failed_origin (s : St) (e : Ev) (h : (step s e).pc = .failed) :
+/-- `failed` is entered only by a poll: `one_failed` says yes, or `all_exited` says no — and that poll is only made after
+    `one_is_alive` said no -/
+theorem failed_origin (s : St) (hi : HInv s) (e : Ev) (h : (step s e).pc = .failed) :
     s.pc = .failed ∨
       ((anyFailed s = true ∨ (anyRunning s = false ∧ allExitedZero s = false)) ∧ (step s e).ws = s.ws) := by
-  cases e with
-  | wPut i => left; simp only [step] at h; split at h <;> exact h
-  | wFlush i => left; simp only [step] at h; split at h <;> exact h
-  | wExit i => left; simp only [step] at h; split at h <;> exact h
-  | wDie i c =>
-    left; simp only [step] at h
-    split at h
-    · split at h <;> exact h
-    · exact h
-  | pGet =>
-    left; simp only [step] at h
+  rcases ev_cases e with he | rfl | rfl | rfl
+  · rcases worker_cases s e he with h' | ⟨_, _, _, _, _, _, hpc⟩
+    · rw [h'] at h; exact Or.inl h
+    · rw [hpc] at h; exact Or.inl h
+  · left
+    simp only [step, stepH] at h
     split at h
     · rcases receive_pc _ _ with h' | h' <;> rw [h'] at h <;> cases h
     · exact h
-  | pTimeout =>
-    left; simp only [step] at h
-    split at h
-    · cases h
+  · left
+    rcases step_pTimeout s with h' | ⟨_, _, h'⟩ <;> rw [h'] at h
     · exact h
-  | pCheck =>
-    have hws := step_ws_parent s .pCheck (Or.inr (Or.inr rfl))
-    simp only [step] at h
-    split at h
-    · split at h
-      · rename_i hpc hfail
-        exact Or.inr ⟨Or.inl hfail, hws⟩
-      · split at h
-        · cases h
-        · rename_i hpc hfail hrun
-          split at h
-          · rename_i hz
-            exact Or.inr ⟨Or.inr ⟨by simpa using hrun, by simpa using hz⟩, hws⟩
-          · cases h
-    · left; exact h
+    · cases h
+  · have hws := step_ws_parent s .pCheck (Or.inr (Or.inr rfl))
+    rw [step_pCheck] at h
+    rcases hi.pcs with hp | hp | hp | hp | hp | hp
+    · rw [hp] at h; cases h
+    · rw [hp] at h; cases h
+    · exact Or.inl hp
+    · rw [hp] at h
+      cases hf : anyFailed s
+      · simp [hf] at h
+      · exact Or.inr ⟨Or.inl rfl, hws⟩
+    · rw [hp] at h
+      cases hr : anyRunning s <;> simp [hr] at h
+    · rw [hp] at h
+      cases hz : allExitedZero s
+      · exact Or.inr ⟨Or.inr ⟨hi.quiet hp, rfl⟩, hws⟩
+      · simp [hz] at h
 
 theorem check_failed {s : St} (hr : anyRunning s = false) (hz : allExitedZero s = false) :
     ∃ w ∈ s.ws, ∃ c, w.st = .exited c ∧ c ≠ 0 := by
@@ -655,11 +798,11 @@ theorem check_failed' {s : St} (h : anyFailed s = true ∨ (anyRunning s = false
   · exact anyFailed_witness hf
   · exact check_failed hr hz
 
-theorem failed_step {s : St} (e : Ev)
+theorem failed_step {s : St} (hi : HInv s) (e : Ev)
     (h : s.pc = .failed → ∃ w ∈ s.ws, ∃ c, w.st = .exited c ∧ c ≠ 0) :
     (step s e).pc = .failed → ∃ w ∈ (step s e).ws, ∃ c, w.st = .exited c ∧ c ≠ 0 := by
   intro hf
-  rcases failed_origin s e hf with hpc | ⟨hch, hws⟩
+  rcases failed_origin s hi e hf with hpc | ⟨hch, hws⟩
   · obtain ⟨w, hw, c, hc, hc0⟩ := h hpc
     obtain ⟨i, hi⟩ := List.mem_iff_getElem?.1 hw
     exact ⟨w, List.mem_iff_getElem?.2 ⟨i, death_persistent s i w hi c hc e⟩, c, hc, hc0⟩
@@ -668,13 +811,13 @@ theorem failed_step {s : St} (e : Ev)
 
 theorem failed_has_death (batches : List (List Nat)) (es : List Ev) (h : (run (init batches) es).pc = .failed) :
     ∃ w ∈ (run (init batches) es).ws, ∃ c, w.st = .exited c ∧ c ≠ 0 := by
-  have gen : ∀ (es : List Ev) (s : St), (s.pc = .failed → ∃ w ∈ s.ws, ∃ c, w.st = .exited c ∧ c ≠ 0) →
+  have gen : ∀ (es : List Ev) (s : St), HInv s → (s.pc = .failed → ∃ w ∈ s.ws, ∃ c, w.st = .exited c ∧ c ≠ 0) →
       ((run s es).pc = .failed → ∃ w ∈ (run s es).ws, ∃ c, w.st = .exited c ∧ c ≠ 0) := by
     intro es
     induction es with
-    | nil => intro s hs; exact hs
-    | cons e es ih => intro s hs; exact ih (step s e) (failed_step e hs)
-  refine gen es (init batches) ?_ h
+    | nil => intro s _ hs; exact hs
+    | cons e es ih => intro s hi hs; exact ih (step s e) (hinv_step hi e) (failed_step hi e hs)
+  refine gen es (init batches) (hinv_init batches) ?_ h
   intro h0
   simp only [init] at h0
   split at h0 <;> cases h0
@@ -691,23 +834,23 @@ theorem nodeath_step {s : St} (e : Ev) (he : isDeath e = false)
     · exact hw'
   cases e with
   | wPut j =>
-    simp only [step]
+    simp only [step, stepH]
     split
     · exact key j _ (Or.inl rfl)
     · exact h
   | wFlush j =>
-    simp only [step]
+    simp only [step, stepH]
     split
     · exact key j _ (Or.inl rfl)
     · exact h
   | wExit j =>
-    simp only [step]
+    simp only [step, stepH]
     split
     · exact key j _ (Or.inr rfl)
     · exact h
   | wDie j code =>
     have hc : code = 0 := by simpa [isDeath] using he
-    simp only [step, hc, if_true]
+    simp only [step, stepH, hc, if_true]
     split <;> exact h
   | pGet => rw [step_ws_parent s _ (Or.inl rfl)]; exact h
   | pTimeout => rw [step_ws_parent s _ (Or.inr (Or.inl rfl))]; exact h
@@ -715,22 +858,22 @@ theorem nodeath_step {s : St} (e : Ev) (he : isDeath e = false)
 
 theorem no_spurious_failure (batches : List (List Nat)) (es : List Ev) (hd : es.any isDeath = false) :
     (run (init batches) es).pc ≠ .failed := by
-  have gen : ∀ (es : List Ev) (s : St), es.any isDeath = false → s.pc ≠ .failed →
+  have gen : ∀ (es : List Ev) (s : St), es.any isDeath = false → HInv s → s.pc ≠ .failed →
       (∀ w ∈ s.ws, w.st = .running ∨ w.st = .exited 0) → (run s es).pc ≠ .failed := by
     intro es
     induction es with
-    | nil => intro s _ hs _; exact hs
+    | nil => intro s _ _ hs _; exact hs
     | cons e es ih =>
-      intro s hd hs hw
+      intro s hd hi hs hw
       simp only [List.any_cons, Bool.or_eq_false_iff] at hd
-      refine ih (step s e) hd.2 ?_ (nodeath_step e hd.1 hw)
+      refine ih (step s e) hd.2 (hinv_step hi e) ?_ (nodeath_step e hd.1 hw)
       intro hf
-      rcases failed_origin s e hf with hpc | ⟨hch, _⟩
+      rcases failed_origin s hi e hf with hpc | ⟨hch, _⟩
       · exact hs hpc
       · obtain ⟨w, hw', c, hc, hc0⟩ := check_failed' hch
         rcases hw w hw' with h1 | h1 <;> rw [hc] at h1 <;> cases h1
         exact hc0 rfl
-  refine gen es (init batches) hd ?_ ?_
+  refine gen es (init batches) hd (hinv_init batches) ?_ ?_
   · simp only [init]
     split <;> simp
   · intro w hw
@@ -739,32 +882,41 @@ theorem no_spurious_failure (batches : List (List Nat)) (es : List Ev) (hd : es.
     exact Or.inl rfl
 
 /-! ## the parent alone, once no worker is running -/
-def drain (n : Nat) : List Ev := List.replicate n .pGet ++ [.pTimeout, .pCheck]
+/-- the three polls of the handler -/
+def polls : List Ev := [.pCheck, .pCheck, .pCheck]
+
+def drain (n : Nat) : List Ev := List.replicate n .pGet ++ (.pTimeout :: polls)
 
 theorem pGet_stutter {s : St} (h : s.pc ≠ .atGet) : step s .pGet = s := by
-  simp only [step]
+  simp only [step, stepH]
   split
   · rename_i hpc _; exact absurd hpc h
   · rfl
 
 theorem pTimeout_stutter {s : St} (h : s.pc ≠ .atGet) : step s .pTimeout = s := by
-  simp only [step]
-  split
-  · rename_i hpc _; exact absurd hpc h
-  · rfl
-
-theorem pCheck_stutter {s : St} (h : s.pc ≠ .afterEmpty) : step s .pCheck = s := by
-  simp only [step]
+  rcases step_pTimeout s with h' | ⟨hpc, _, _⟩
+  · exact h'
+  · exact absurd hpc h
 
 theorem gets_stutter {s : St} (h : s.pc ≠ .atGet) (n : Nat) : run s (List.replicate n .pGet) = s := by
   induction n with
   | zero => rfl
   | succ n ih => rw [List.replicate_succ, run_cons, pGet_stutter h, ih]
 
+/-- three polls in a row, the workers not moving -/
+theorem run_polls (s : St) : run s polls = { s with pc := checkPC s (checkPC s (checkPC s s.pc)) } := by
+  simp only [polls, run_cons, run_nil, step_pCheck, checkPC_pc]
+
+theorem drain_notAtGet {s : St} (h : s.pc ≠ .atGet) (n : Nat) : run s (drain n) = run s polls := by
+  rw [drain, run_append, gets_stutter h, run_cons, pTimeout_stutter h]
+
+theorem polls_stuck {s : St} (h : s.pc = .done ∨ s.pc = .failed) : run s polls = s := by
+  rw [run_polls]
+  rcases h with h | h <;> simp [h] <;> rw [← h]
+
 theorem drain_stuck {s : St} (h : s.pc = .done ∨ s.pc = .failed) (n : Nat) : run s (drain n) = s := by
   have h1 : s.pc ≠ .atGet := by rcases h with h | h <;> simp [h]
-  have h2 : s.pc ≠ .afterEmpty := by rcases h with h | h <;> simp [h]
-  rw [drain, run_append, gets_stutter h1, run_cons, pTimeout_stutter h1, run_cons, pCheck_stutter h2, run_nil]
+  rw [drain_notAtGet h1, polls_stuck h]
 
 theorem drain_gets (n : Nat) : ∀ (s : St), s.chan.length = n → s.pc = .atGet →
     (run s (List.replicate n .pGet)).ws = s.ws ∧
@@ -780,7 +932,7 @@ theorem drain_gets (n : Nat) : ∀ (s : St), s.chan.length = n → s.pc = .atGet
     | nil => simp [hc] at hn
     | cons m c =>
       have hstep : step s .pGet = receive { s with chan := c } m := by
-        simp only [step, hpc, hc]
+        simp only [step, stepH, hpc, hc]
       rw [List.replicate_succ, run_cons, hstep]
       have hws := receive_ws { s with chan := c } m
       have hch := receive_chan { s with chan := c } m
@@ -792,24 +944,28 @@ theorem drain_gets (n : Nat) : ∀ (s : St), s.chan.length = n → s.pc = .atGet
         obtain ⟨h1, h2⟩ := ih _ hlen hg
         exact ⟨h1.trans hws, h2⟩
 
-theorem final_check {s : St} (hpc : s.pc = .atGet) (hc : s.chan = []) (hr : anyRunning s = false) :
-    run s [.pTimeout, .pCheck] =
-      { s with pc := if anyFailed s then .failed else if allExitedZero s then .atGet else .failed } := by
-  have h1 : step s .pTimeout = { s with pc := .afterEmpty } := by simp only [step, hpc, hc]
-  rw [run_cons, h1, run_cons, run_nil]
-  have hr' : anyRunning { s with pc := PC.afterEmpty } = false := hr
-  have hz' : allExitedZero { s with pc := PC.afterEmpty } = allExitedZero s := rfl
-  have hf' : anyFailed { s with pc := PC.afterEmpty } = anyFailed s := rfl
-  simp only [step, hr', hz', hf']
-  cases anyFailed s <;> cases allExitedZero s <;> simp
+/-- a whole run of the handler, the workers not moving -/
+theorem handler_run {s : St} (hpc : s.pc = .atGet) (hc : s.chan = []) :
+    run s (.pTimeout :: polls) = { s with pc := checkPC s (checkPC s (checkPC s (.eval refHandler))) } := by
+  rcases step_pTimeout s with h' | ⟨_, _, h'⟩
+  · simp only [step, stepH, hpc, hc] at h'
+    have := congrArg St.pc h'
+    rw [enter_eq, hpc] at this
+    cases this
+  · rw [run_cons, h', run_polls]
+    simp only [checkPC_pc]
 
-/-- with a failed worker the timeout and the check end in `failed`, whatever the other workers are doing -/
+theorem final_check {s : St} (hpc : s.pc = .atGet) (hc : s.chan = []) (hr : anyRunning s = false) :
+    run s (.pTimeout :: polls) =
+      { s with pc := if anyFailed s then .failed else if allExitedZero s then .atGet else .failed } := by
+  rw [handler_run hpc hc]
+  cases hf : anyFailed s <;> cases hz : allExitedZero s <;> simp [hf, hz, hr]
+
+/-- with a failed worker the timeout and the polls end in `failed`, whatever the other workers are doing -/
 theorem final_check_failed {s : St} (hpc : s.pc = .atGet) (hc : s.chan = []) (hf : anyFailed s = true) :
-    run s [.pTimeout, .pCheck] = { s with pc := .failed } := by
-  have h1 : step s .pTimeout = { s with pc := .afterEmpty } := by simp only [step, hpc, hc]
-  rw [run_cons, h1, run_cons, run_nil]
-  have hf' : anyFailed { s with pc := PC.afterEmpty } = true := hf
-  simp only [step, hf', if_true]
+    run s (.pTimeout :: polls) = { s with pc := .failed } := by
+  rw [handler_run hpc hc]
+  simp [hf]
 
 theorem inv_quiet_done {batches : List (List Nat)} {s : St} (h : Inv batches s) (hz : allExitedZero s = true)
     (hc : s.chan = []) : s.pc = .done := by
@@ -829,31 +985,27 @@ theorem inv_quiet_done {batches : List (List Nat)} {s : St} (h : Inv batches s) 
   rw [h.len]
   omega
 
-theorem anyRunning_congr {s s' : St} (h : s'.ws = s.ws) : anyRunning s' = anyRunning s := by
-  simp [anyRunning, h]
-theorem allExitedZero_congr {s s' : St} (h : s'.ws = s.ws) : allExitedZero s' = allExitedZero s := by
-  simp [allExitedZero, h]
-theorem anyFailed_congr {s s' : St} (h : s'.ws = s.ws) : anyFailed s' = anyFailed s := by
-  simp [anyFailed, h]
+theorem anyFailed_not_zero {s : St} (hf : anyFailed s = true) : allExitedZero s = false := by
+  obtain ⟨w, hw, c, hc, hc0⟩ := anyFailed_witness hf
+  simp only [allExitedZero, List.all_eq_false, beq_iff_eq]
+  refine ⟨w, hw, ?_⟩
+  rw [hc]
+  intro heq
+  cases heq
+  exact hc0 rfl
 
-/-- corrected termination statement: from a reachable quiescent state in which the parent is not between `Empty` and the
-    liveness check -/
-theorem drain_terminates {batches : List (List Nat)} {s : St} (h : Inv batches s) (hq : anyRunning s = false)
-    (hpc : s.pc ≠ .afterEmpty) :
+/-- termination from a reachable quiescent state in which the parent is not inside the handler -/
+theorem drain_terminates {batches : List (List Nat)} {s : St} (h : Inv batches s) (hi : HInv s) (hq : anyRunning s = false)
+    (hpc : ∀ p, s.pc ≠ .eval p) :
     (run s (drain s.chan.length)).pc = .done ∨ (run s (drain s.chan.length)).pc = .failed := by
-  cases hp : s.pc with
-  | afterEmpty => exact absurd hp hpc
-  | done => rw [drain_stuck (Or.inl hp)]; exact Or.inl hp
-  | failed => rw [drain_stuck (Or.inr hp)]; exact Or.inr hp
-  | atGet =>
-    obtain ⟨hws, hcase⟩ := drain_gets s.chan.length s rfl hp
+  rcases hi.pcs with hp | hp | hp | hp | hp | hp
+  · obtain ⟨hws, hcase⟩ := drain_gets s.chan.length s rfl hp
     have hinv := inv_run h (List.replicate s.chan.length .pGet)
     rw [drain, run_append]
     generalize run s (List.replicate s.chan.length .pGet) = s2 at hws hcase hinv
     rcases hcase with hd | ⟨hg, hch⟩
     · have h1 : s2.pc ≠ .atGet := by simp [hd]
-      have h2 : s2.pc ≠ .afterEmpty := by simp [hd]
-      rw [run_cons, pTimeout_stutter h1, run_cons, pCheck_stutter h2, run_nil]
+      rw [run_cons, pTimeout_stutter h1, polls_stuck (Or.inl hd)]
       exact Or.inl hd
     · rw [final_check hg hch ((anyRunning_congr hws).trans hq)]
       cases hf : anyFailed s2 with
@@ -865,26 +1017,36 @@ theorem drain_terminates {batches : List (List Nat)} {s : St} (h : Inv batches s
           have := inv_quiet_done hinv hz hch
           rw [hg] at this
           cases this
+  · rw [drain_stuck (Or.inl hp)]; exact Or.inl hp
+  · rw [drain_stuck (Or.inr hp)]; exact Or.inr hp
+  · exact absurd hp (hpc _)
+  · exact absurd hp (hpc _)
+  · exact absurd hp (hpc _)
 
-/-- corrected termination statement, for every reachable quiescent state: one more liveness check first -/
-theorem drain_terminates' {batches : List (List Nat)} {s : St} (h : Inv batches s) (hq : anyRunning s = false) :
-    (run s (.pCheck :: drain s.chan.length)).pc = .done ∨ (run s (.pCheck :: drain s.chan.length)).pc = .failed := by
-  rw [run_cons]
-  have hws := step_ws_parent s .pCheck (Or.inr (Or.inr rfl))
-  have hch : (step s .pCheck).chan = s.chan := by
-    rcases pCheck_cases s with h | h | h <;> rw [h]
-  have hpc : (step s .pCheck).pc ≠ .afterEmpty := by
-    simp only [step]
-    split
-    · split
-      · simp
-      · split
-        · simp
-        · split <;> simp
-    · rename_i hne
-      exact fun h => hne h
-  have := drain_terminates (inv_step h .pCheck) ((anyRunning_congr hws).trans hq) hpc
-  rw [hch] at this
+/-- the pending polls of a quiescent state lead out of the handler -/
+theorem polls_exit_quiet {s : St} (hi : HInv s) (hq : anyRunning s = false) (p : Prog) :
+    checkPC s (checkPC s (checkPC s s.pc)) ≠ .eval p := by
+  rcases hi.pcs with hp | hp | hp | hp | hp | hp <;> rw [hp] <;>
+    cases hf : anyFailed s <;> cases hz : allExitedZero s <;> simp [hf, hz, hq]
+
+/-- with a failed worker the pending polls lead out of the handler, whatever the other workers are doing -/
+theorem polls_exit_failed {s : St} (hi : HInv s) (hf : anyFailed s = true) (p : Prog) :
+    checkPC s (checkPC s (checkPC s s.pc)) ≠ .eval p := by
+  have hz := anyFailed_not_zero hf
+  rcases hi.pcs with hp | hp | hp | hp | hp | hp <;> rw [hp] <;>
+    cases hr : anyRunning s <;> simp [hf, hz, hr]
+
+theorem polls_ws (s : St) : (run s polls).ws = s.ws := by rw [run_polls]
+theorem polls_chan (s : St) : (run s polls).chan = s.chan := by rw [run_polls]
+
+/-- termination for every reachable quiescent state: the pending polls first -/
+theorem drain_terminates' {batches : List (List Nat)} {s : St} (h : Inv batches s) (hi : HInv s) (hq : anyRunning s = false) :
+    (run s (polls ++ drain s.chan.length)).pc = .done ∨ (run s (polls ++ drain s.chan.length)).pc = .failed := by
+  rw [run_append]
+  have hpc : ∀ p, (run s polls).pc ≠ .eval p := by
+    intro p; rw [run_polls]; exact polls_exit_quiet hi hq p
+  have := drain_terminates (inv_run h polls) (hinv_run hi polls) ((anyRunning_congr (polls_ws s)).trans hq) hpc
+  rw [polls_chan] at this
   exact this
 
 theorem inv_done_undelivered {batches : List (List Nat)} {s : St} (h : Inv batches s) (hd : s.pc = .done) :
@@ -892,7 +1054,7 @@ theorem inv_done_undelivered {batches : List (List Nat)} {s : St} (h : Inv batch
   obtain ⟨_, hW⟩ := inv_all_empty h (h.pcd.1 hd)
   simpa [W, List.flatMap_eq_nil_iff] using hW
 
-theorem drain_death_fails {batches : List (List Nat)} {s : St} (h : Inv batches s) (hq : anyRunning s = false)
+theorem drain_death_fails {batches : List (List Nat)} {s : St} (h : Inv batches s) (hi : HInv s) (hq : anyRunning s = false)
     (hw : ∃ w ∈ s.ws, (∃ c, w.st = .exited c ∧ c ≠ 0) ∧ w.buf ++ w.todo ≠ []) :
     (run s (drain s.chan.length)).pc = .failed := by
   obtain ⟨w, hwm, ⟨c, hc, hc0⟩, hund⟩ := hw
@@ -903,16 +1065,13 @@ theorem drain_death_fails {batches : List (List Nat)} {s : St} (h : Inv batches 
     intro heq
     cases heq
     exact hc0 rfl
-  cases hp : s.pc with
-  | done => exact absurd (inv_done_undelivered h hp w hwm) hund
-  | failed => rw [drain_stuck (Or.inr hp)]; exact hp
-  | afterEmpty =>
-    have h1 : s.pc ≠ .atGet := by simp [hp]
-    rw [drain, run_append, gets_stutter h1, run_cons, pTimeout_stutter h1, run_cons, run_nil]
-    simp only [step, hp, hq, hz]
-    cases anyFailed s <;> simp
-  | atGet =>
-    obtain ⟨hws, hcase⟩ := drain_gets s.chan.length s rfl hp
+  have inH : ∀ q, s.pc = .eval q → checkPC s (checkPC s (checkPC s (.eval q))) = .failed →
+      (run s (drain s.chan.length)).pc = .failed := by
+    intro q hp hres
+    rw [drain_notAtGet (by simp [hp]), run_polls, hp]
+    exact hres
+  rcases hi.pcs with hp | hp | hp | hp | hp | hp
+  · obtain ⟨hws, hcase⟩ := drain_gets s.chan.length s rfl hp
     have hinv := inv_run h (List.replicate s.chan.length .pGet)
     rw [drain, run_append]
     generalize run s (List.replicate s.chan.length .pGet) = s2 at hws hcase hinv
@@ -920,32 +1079,37 @@ theorem drain_death_fails {batches : List (List Nat)} {s : St} (h : Inv batches 
     · exact absurd (inv_done_undelivered hinv hd w (hws ▸ hwm)) hund
     · rw [final_check hg hch ((anyRunning_congr hws).trans hq), allExitedZero_congr hws, hz]
       cases anyFailed s2 <;> simp
+  · exact absurd (inv_done_undelivered h hp w hwm) hund
+  · rw [drain_stuck (Or.inr hp)]; exact hp
+  · exact inH _ hp (by cases hf : anyFailed s <;> simp [hf, hq, hz])
+  · exact inH _ hp (by simp [hq, hz])
+  · exact inH _ hp (by simp [hz])
 
-/-- once some worker has failed, the parent alone terminates (a possibly pending check, the reads, one timeout, one check),
-    whatever the state of the other workers; no invariant is needed -/
-theorem drain_failed_terminates {s : St} (hf : anyFailed s = true) :
-    (run s (.pCheck :: drain s.chan.length)).pc = .done ∨ (run s (.pCheck :: drain s.chan.length)).pc = .failed := by
-  rw [run_cons]
-  cases hp : s.pc with
-  | afterEmpty =>
-    have h1 : step s .pCheck = { s with pc := .failed } := by simp only [step, hp, hf, if_true]
-    rw [h1, drain_stuck (Or.inr rfl)]
-    exact Or.inr rfl
-  | done =>
-    rw [pCheck_stutter (by simp [hp]), drain_stuck (Or.inl hp)]; exact Or.inl hp
-  | failed =>
-    rw [pCheck_stutter (by simp [hp]), drain_stuck (Or.inr hp)]; exact Or.inr hp
-  | atGet =>
-    rw [pCheck_stutter (by simp [hp])]
-    obtain ⟨hws, hcase⟩ := drain_gets s.chan.length s rfl hp
+/-- once some worker has failed, the parent alone terminates (the pending polls, the reads, one timeout, the polls),
+    whatever the state of the other workers; only the invariant of the program counter is needed -/
+theorem drain_failed_terminates {s : St} (hi : HInv s) (hf : anyFailed s = true) :
+    (run s (polls ++ drain s.chan.length)).pc = .done ∨ (run s (polls ++ drain s.chan.length)).pc = .failed := by
+  rw [run_append]
+  have hi1 := hinv_run hi polls
+  have hpc : ∀ p, (run s polls).pc ≠ .eval p := by
+    intro p; rw [run_polls]; exact polls_exit_failed hi hf p
+  have hf1 : anyFailed (run s polls) = true := (anyFailed_congr (polls_ws s)).trans hf
+  rw [← polls_chan s]
+  generalize run s polls = s1 at hi1 hpc hf1
+  rcases hi1.pcs with hp | hp | hp | hp | hp | hp
+  · obtain ⟨hws, hcase⟩ := drain_gets s1.chan.length s1 rfl hp
     rw [drain, run_append]
-    generalize run s (List.replicate s.chan.length .pGet) = s2 at hws hcase
+    generalize run s1 (List.replicate s1.chan.length .pGet) = s2 at hws hcase
     rcases hcase with hd | ⟨hg, hch⟩
     · have h1 : s2.pc ≠ .atGet := by simp [hd]
-      have h2 : s2.pc ≠ .afterEmpty := by simp [hd]
-      rw [run_cons, pTimeout_stutter h1, run_cons, pCheck_stutter h2, run_nil]
+      rw [run_cons, pTimeout_stutter h1, polls_stuck (Or.inl hd)]
       exact Or.inl hd
-    · rw [final_check_failed hg hch ((anyFailed_congr hws).trans hf)]
+    · rw [final_check_failed hg hch ((anyFailed_congr hws).trans hf1)]
       exact Or.inr rfl
+  · rw [drain_stuck (Or.inl hp)]; exact Or.inl hp
+  · rw [drain_stuck (Or.inr hp)]; exact Or.inr hp
+  · exact absurd hp (hpc _)
+  · exact absurd hp (hpc _)
+  · exact absurd hp (hpc _)
 
 end Gaftools.Proofs.Realign
